@@ -9,6 +9,7 @@ TLC judges every event against the reference parse of the result's own input (Tr
 import glob
 import json
 import os
+import re
 import time
 
 import vflib as V
@@ -16,8 +17,10 @@ import vflib as V
 SEQ_CFGS = ["MCLazyPool_seq_nolimit.cfg", "MCLazyPool_seq_max0.cfg", "MCLazyPool_seq_max1.cfg", "MCLazyPool_seq_max2.cfg"]
 
 TIERS = {
-    "C13": {"quick": dict(runs=[dict(fam="acc", iters=500, shards=6)], mc=[("MCLazy", "MCLazy_quick.cfg")]),
-            "thorough": dict(runs=[dict(fam="acc", iters=12000, shards=16)], mc=[("MCLazy", "MCLazy_thorough.cfg")])},
+    "C13": {"quick": dict(runs=[dict(fam="acc", iters=500, shards=6)], mc=[("MCLazy", "MCLazy_quick.cfg")],
+                          defs=["MCLazyDef_quick.cfg", "MCLazyDef_quick2.cfg"]),
+            "thorough": dict(runs=[dict(fam="acc", iters=12000, shards=16)], mc=[("MCLazy", "MCLazy_thorough.cfg")],
+                             defs=["MCLazyDef_quick.cfg", "MCLazyDef_quick2.cfg", "MCLazyDef_thorough.cfg"])},
     "C14": {"quick": dict(runs=[dict(fam="pool", iters=120, hist=60, shards=4)],
                           mc=[("MCLazyPool", "MCLazyPool_seq_max1.cfg")], expect_violation=[("MCLazyPool", "MCLazyPool_asfound.cfg", "NoPanic")]),
             "thorough": dict(runs=[dict(fam="pool", iters=3000, hist=80, shards=16)],
@@ -39,7 +42,9 @@ TIERS = {
 RULES = {
     "C13": "one case = one accessor / nested lookup / Range call on a result decoded from a random message (value tree rendered with protowire; "
            "1 in 6 mutated) under a random definition, through the Decode function or a Decoder with random options; distinct = distinct "
-           "(message, definition, call, path); non-trivial = the addressed tag is declared and present in the message",
+           "(message, definition, call, path); non-trivial = the addressed tag is declared and present in the message; plus one case per step of every "
+           "Def builder script TLC enumerates (Tags / NestedTag on the root or a nested handle, valid / negative / invalid tags): structure, Get, Validate "
+           "and NewDecoder acceptance (also with invalid options) compared with LazyDef",
     "C14": "one case = one operation of a random history (Decode, accessor, NestedResult(s), Range, Close, stability check) on one pooled Decoder "
            "per option combination (mode x max buffer {none,0,1,2,64} x filter {none,halve,zero}); distinct = distinct (options, history prefix "
            "hash, call); non-trivial = the result object was handed out by the pool before (reuse) or the call reads a present tag",
@@ -132,6 +137,54 @@ def run_family(prop, scratch, r, seed, verdicts, stats):
                 stats["nfail"] = stats.get("nfail", 0) + 1
 
 
+RE_DEFOP = re.compile(r'<<\s*"(tags|nested)"\s*,\s*(-?\d+)\s*,\s*(-?\d+)\s*,\s*(-?\d+)\s*,\s*(-?\d+)\s*,\s*(-?\d+)\s*>>')
+
+
+def run_defs(prop, scratch, cfgs, verdicts, stats, mcs):
+    """Def builder scripts: TLC enumerates them (MCLazyDef), the harness replays them on the real lazyproto.Def, TraceLazyDef judges."""
+    binp = V.build_harness(scratch, "lazy")
+    for cfg in cfgs:
+        m = V.tlc_mc(scratch, "MCLazyDef", cfg, workers=1)
+        mcs.append(m)
+        log = open(os.path.join(scratch.dir, "mc-" + cfg.replace(".cfg", ""), "tlc.log")).read()
+        scripts = []
+        for chunk in log.split('"DEFSCRIPT"')[1:]:
+            ops = RE_DEFOP.findall(chunk.split("<< \"DEFSCRIPT")[0])
+            if ops:
+                scripts.append(";".join(" ".join(o) for o in ops))
+        if not scripts:
+            raise V.Inconclusive("TLC emitted no Def scripts for %s" % cfg)
+        sf = scratch.path("defscripts-%s.txt" % cfg.replace(".cfg", ""))
+        with open(sf, "w") as f:
+            f.write("\n".join(scripts) + "\n")
+        outp = scratch.path("tr-def-%s" % cfg.replace(".cfg", ""))
+        args = [binp, "-fam", "def", "-scripts", sf, "-shards", "8", "-out", outp]
+        p = V.run(args, timeout=1800)
+        info = json.loads(p.stdout.strip().splitlines()[-1])
+        stats["events"] = stats.get("events", 0) + info["events"]
+        stats["def_scripts"] = stats.get("def_scripts", 0) + len(scripts)
+        files = sorted(glob.glob(outp + ".*.ndjson"))
+        for tf, res in V.tlc_trace(scratch, "TraceLazyDef", "TraceLazyDef.cfg", files, label="tv-def-" + cfg.replace(".cfg", "")):
+            events = V.load_events(tf)
+            if res["n"] != len(events):
+                raise V.Inconclusive("trace %s: TLC consumed %d of %d events" % (tf, res["n"], len(events)))
+            if res["desync"]:
+                raise V.Inconclusive("def trace desynchronised: %s" % json.dumps(events[res["desync"][0] - 1])[:400])
+            start = 0
+            for i, e in enumerate(events):
+                if e["c"] == "defnew":
+                    start = i
+                    stats["traces"] = stats.get("traces", 0) + 1
+                    continue
+                key = hash(json.dumps([[x["kind"], x["h"], x["t"], x["nts"]] for x in events[start + 1:i + 1]]))
+                stats.setdefault("seen", set()).add(key)
+                stats.setdefault("nontrivial", set()).add(key)
+                if (i + 1) in set(res["bad"]):
+                    sig = {"c": "defop", "kind": e["kind"], "st": e["st"], "valid": e["valid"], "ndec": e["ndec"]}
+                    verdicts.fail(sig, {"property": prop, "family": "def", "script": events[start:i + 1], "observed": e}, "def-%d-%d" % (stats.get("nfail", 0), i + 1))
+                    stats["nfail"] = stats.get("nfail", 0) + 1
+
+
 def race_event(note):
     return {"c": "race", "h": 0, "hp": 0, "hs": [], "buf": [], "def": {"tags": [], "nested": []}, "mode": 0, "entry": "", "acc": "", "tag": 0,
             "all": 0, "path": [], "st": "race", "val": [], "vals": [], "rng": [], "eq": 0, "ptr": 0, "g": 0, "seq": 0, "ncl": 0, "nilcl": 0,
@@ -175,6 +228,8 @@ def check(prop, tier, seed, replay_path=None, selftest=False, keep=False):
         expected = [tlc_expect_violation(scratch, m, c, inv) for m, c, inv in cfg.get("expect_violation", [])]
         for r in cfg["runs"]:
             run_family(prop, scratch, r, seed, verdicts, stats)
+        if cfg.get("defs"):
+            run_defs(prop, scratch, cfg["defs"], verdicts, stats, mcs)
         if prop == "C14" and stats.get("reuse", 0) == 0:
             raise V.Inconclusive("no pooled result object was ever reused during the recorded histories")
         rc = verdicts.finish()
@@ -183,7 +238,7 @@ def check(prop, tier, seed, replay_path=None, selftest=False, keep=False):
             "traces_validated_against_impl": stats.get("traces", 0),
             "evaluations": stats["events"], "distinct_nontrivial": len(stats["nontrivial"]), "distinct_cases": len(stats["seen"]),
             "rule": RULES[prop], "samples": stats["samples"], "exhaustive": False,
-            "pool_reuses_observed": stats.get("reuse", 0),
+            "pool_reuses_observed": stats.get("reuse", 0), "tlc_generated_def_scripts": stats.get("def_scripts", 0),
             "race_detector_runs": stats.get("race_runs", 0),
             "expected_violation_configs": expected,
             "explanation": "TLC model checking: " + "; ".join("%s/%s %d states %d transitions" % (m["module"], m["cfg"], m["states"], m["transitions"]) for m in mcs)
